@@ -2,7 +2,8 @@
 EXTENDS Filter
 D(n, l)        == [name |-> n, kind |-> "data", len |-> l, wf |-> FALSE]
 P(n, l, wf)    == [name |-> n, kind |-> "ptr",  len |-> l, wf |-> wf]
-DataQuick == { D("empty", 0), D("one", 1), D("text200", 200), D("bin1023", 1023), D("bin1024", 1024), D("bin1025", 1025),
+\* blank_*: nothing but white space (what a trim-happy pointer parser reduces to the empty input)
+DataQuick == { D("empty", 0), D("one", 1), D("blank_nl", 1), D("blank_mix", 8), D("blank1023", 1023), D("text200", 200), D("bin1023", 1023), D("bin1024", 1024), D("bin1025", 1025),
                D("bin5000", 5000), D("bin65515", 65515), D("bin65516", 65516), D("bin65517", 65517), D("bin131032", 131032) }
 PtrQuick  == { P("ptr_canon", 130, TRUE), P("ptr_crlf", 133, TRUE), P("ptr_pad1023", 1023, TRUE),
                P("ptr_pad1024", 1024, TRUE), P("ptr_pad1025", 1025, TRUE),
